@@ -31,6 +31,7 @@ import (
 	"hash/fnv"
 	"math"
 	"sort"
+	"sync/atomic"
 
 	"github.com/Shopify/sarama/internal/vfcore"
 )
@@ -996,6 +997,12 @@ func vfc15JudgeRun(run *vfc15Run, rec *vfcore.Rec) *vfcore.Failure {
 		f.History = map[string]interface{}{"ops": j.ops, "stacks": run.stacks}
 		return f
 	}
+	if run.mixed != "" {
+		f := vfcore.Failf("mixed-state-visible", "a reader holding the client's read lock during a refresh saw two states at once: %s", run.mixed)
+		f.History = map[string]interface{}{"ops": j.ops}
+		return f
+	}
+	rec.Count("lock-probes", atomic.LoadInt64(&run.nProbes))
 	if !j.build() {
 		rec.Discard()
 		vfcore.AddCounter("discard:unscripted-read-timeout", 1)
